@@ -16,7 +16,10 @@ MASKED = ["masked", "masked_low", "masked_high"]
 
 
 def budget(ctx: Ctx, quick: int, thorough: int) -> int:
-    return quick if ctx.quick else thorough
+    # the thorough tier also runs more configurations per environment (larger sizes, every reward function), so the per-configuration
+    # budgets grow by at most 4x: a thorough check should finish in tens of minutes, not hours (measured: C04 thorough took 91 min
+    # with the uncapped budgets, 61 of them in FlatPack)
+    return quick if ctx.quick else min(thorough, 4 * quick)
 
 
 def adapters_for(pid: str) -> List[Adapter]:
@@ -86,7 +89,7 @@ def run(ctx: Ctx, pid: str, extended: bool = False) -> None:
 
     ads = adapters_for(pid)
     ctx.coverage_extra["envs_with_model"] = sorted(a.name for a in ads)
-    workers = int(os.environ.get("VERIF_WORKERS", "8"))
+    workers = int(os.environ.get("VERIF_WORKERS", str(8 if ctx.quick else max(8, min(16, os.cpu_count() or 8)))))
     names = [a.name for a in ads]
     if workers <= 1 or len(names) <= 2:
         _run_local(ctx, pid, extended)
@@ -95,8 +98,8 @@ def run(ctx: Ctx, pid: str, extended: bool = False) -> None:
     import multiprocessing as mp
 
     # longest-first round robin so that the groups are balanced
-    weight = {"bin_pack": 9, "robot_warehouse": 6, "pac_man": 5, "connector": 5, "lbf": 5, "mmst": 5, "multi_cvrp": 4, "sudoku": 4,
-              "job_shop": 4, "rubiks_cube": 5, "flat_pack": 4, "snake": 4, "tetris": 3}
+    weight = {"bin_pack": 9, "robot_warehouse": 6, "pac_man": 5, "connector": 5, "lbf": 5, "mmst": 8, "multi_cvrp": 7, "sudoku": 4,
+              "job_shop": 4, "rubiks_cube": 5, "flat_pack": 10, "snake": 4, "tetris": 3}
     order = sorted(names, key=lambda n: -weight.get(n, 2))
     groups: List[List[str]] = [[] for _ in range(min(workers, len(order)))]
     load = [0] * len(groups)
